@@ -9,6 +9,7 @@ mod ledger;
 mod libl;
 mod proto;
 mod revpair;
+mod rnglayer;
 mod rec;
 mod rngs;
 mod util;
@@ -79,6 +80,14 @@ fn real_main() {
         "ledger" => {
             let thorough = a.get("tier").map(|t| t == "thorough").unwrap_or(false);
             write_events(&a["out"], &ledger::run(seed, thorough));
+        }
+        "c18" => {
+            let thorough = a.get("tier").map(|t| t == "thorough").unwrap_or(false);
+            write_events(&a["out"], &rnglayer::run_c18(seed, thorough));
+        }
+        "c19" => {
+            let thorough = a.get("tier").map(|t| t == "thorough").unwrap_or(false);
+            write_events(&a["out"], &rnglayer::run_c19(seed, thorough));
         }
         "psig" => {
             let thorough = a.get("tier").map(|t| t == "thorough").unwrap_or(false);
